@@ -34,7 +34,8 @@ def progress(name, fn, entry, loops, **kw):
          # no CBMC pointer checks here: the running pointer legitimately leaves the 16-byte stand-in object of the base+extent model
          # (every buffer access is checked by the accessor contracts instead; stores to the 64-byte state / hash objects by the frame)
          "checks": ["--no-pointer-check", "--no-pointer-primitive-check", "--bounds-check", "--div-by-zero-check", "--undefined-shift-check", "--signed-overflow-check"],
-         "expect_classes": ["loop_invariant_step", "precondition", "postcondition"], "expect_min": 20, "timeout": 1800, "mem_gb": 12, "weight": 3, "backend": "kissat"}
+         "expect_classes": ["loop_invariant_step", "precondition", "postcondition"], "expect_min": 20, "timeout": 1800, "mem_gb": 12, "weight": 3, "backend": "kissat",
+         "replay": {"prog": "replay_progress.cpp", "sources": "lib", "flags": ["-O1", "-maes"], "no_args": True}}
     o.update(kw)
     return o
 
